@@ -61,6 +61,7 @@ let () = run_lines (fun toks ->
      | "sub" | "subin" -> s (Model.bf_sub pe p a.(0) a.(1))
      | "mul" | "mulin" -> s (Model.bf_mul pe p a.(0) a.(1))
      | "neg" | "negin" -> s (Model.bf_neg a.(0))
+     | "negn" -> s (Model.bf_negn pe p a.(0))            (* neg as repaired by frag/C03.fix-1 *)
      | "inv" | "invin" -> so s (Model.bf_inv pe p fuel a.(0))
      | "div" | "divin" -> so s (Model.bf_div pe p fuel a.(0) a.(1))
      | "axpy" -> s (Model.bf_axpy pe p a.(0) a.(1) a.(2))
@@ -79,6 +80,8 @@ let () = run_lines (fun toks ->
      | "sub" | "subin" -> s (Model.bi_sub w p a.(0) a.(1))
      | "mul" | "mulin" -> s (Model.bi_mul w p a.(0) a.(1))
      | "neg" | "negin" -> s (Model.bi_neg w a.(0))
+     | "negn" -> s (Model.bi_negn w p a.(0))             (* neg / maxpy as repaired by frag/C03.fix-1 *)
+     | "maxpyn" -> s (Model.bi_maxpyn w p a.(0) a.(1) a.(2))
      | "inv" | "invin" -> so s (Model.bi_inv w p fuel a.(0))
      | "div" | "divin" -> so s (Model.bi_div w p fuel a.(0) a.(1))
      | "axpy" | "axpyin" -> s (Model.bi_axpy w p a.(0) a.(1) a.(2))
@@ -87,22 +90,22 @@ let () = run_lines (fun toks ->
      | "reduce1" | "reduce2" -> s (Model.bi_reduce w p a.(0))
      | "isUnit" -> so string_of_bool (Model.bi_isUnit w p fuel a.(0))
      | _ -> "UNKNOWN-OP")
-  | "ex" :: pe :: p :: op :: args ->
-    let pe = zs pe and p = zs p in
+  | "xb" :: mb :: rb :: pe :: p :: op :: args ->
+    (* ModularExtended: mb / rb = the preprocessor branch of ::mul / ::reduce the configuration compiled (0 FMA, 1 Dekker, 2 fallback) *)
+    let mb = zs mb and rb = zs rb and pe = zs pe and p = zs p in
     let a = Array.of_list (List.map zs args) in
     let s = string_of_z in
     (match op with
      | "add" | "addin" -> s (Model.ex_add pe p a.(0) a.(1))
      | "sub" | "subin" -> s (Model.ex_sub pe p a.(0) a.(1))
-     | "mul" | "mulin" -> s (Model.ex_mul pe p a.(0) a.(1))
+     | "mul" | "mulin" -> s (Model.xb_mul mb pe p a.(0) a.(1))
      | "neg" | "negin" -> s (Model.ex_neg pe p a.(0))
      | "inv" | "invin" -> so s (Model.ex_inv pe p fuel a.(0))
-     | "div" -> so s (Model.ex_div pe p fuel a.(0) a.(1))
-     | "divin" -> so s (Model.ex_divin pe p fuel a.(0) a.(1))
-     | "axpy" | "axpyin" -> s (Model.ex_axpy pe p a.(0) a.(1) a.(2))
-     | "axmy" | "axmyin" -> s (Model.ex_axmy pe p a.(0) a.(1) a.(2))
-     | "maxpy" | "maxpyin" -> s (Model.ex_maxpy pe p a.(0) a.(1) a.(2))
-     | "reduce1" | "reduce2" -> s (Model.ex_reduce pe p a.(0))
+     | "div" | "divin" -> so s (Model.xb_div mb pe p fuel a.(0) a.(1))
+     | "axpy" | "axpyin" -> s (Model.xb_axpy mb pe p a.(0) a.(1) a.(2))
+     | "axmy" | "axmyin" -> s (Model.xb_axmy mb pe p a.(0) a.(1) a.(2))
+     | "maxpy" | "maxpyin" -> s (Model.xb_maxpy mb pe p a.(0) a.(1) a.(2))
+     | "reduce1" | "reduce2" -> s (Model.xb_reduce rb pe p a.(0))
      | "isUnit" -> so string_of_bool (Model.ex_isUnit pe p fuel a.(0))
      | _ -> "UNKNOWN-OP")
   | "ru" :: w :: dbl :: p :: op :: args ->
